@@ -83,6 +83,21 @@ func (s *regSys) Enabled() []Op {
 			ops = append(ops, Op{K: "Start", Repo: r})
 		}
 	}
+	if s.cfg.ExplicitIDs && len(s.handles) < s.cfg.MaxUploads+1 {
+		// the same caller-chosen upload ID in each repository (ocimem accepts chosen IDs): sessions of
+		// different repositories must not share state
+		for _, r := range s.cfg.Repos {
+			dup := false
+			for _, up := range s.model.Uploads {
+				if up.Repo == r && up.Explicit {
+					dup = true
+				}
+			}
+			if !dup {
+				ops = append(ops, Op{K: "Start", Repo: r, Off: "id", Piece: "xid"})
+			}
+		}
+	}
 	for h, up := range s.model.Uploads {
 		if s.handles[h] == nil {
 			continue
@@ -115,6 +130,13 @@ func (s *regSys) Enabled() []Op {
 	return ops
 }
 
+// scribble overwrites a buffer the harness handed to the registry: stored content must not alias it.
+func scribble(b []byte) {
+	for i := range b {
+		b[i] ^= 0xA5
+	}
+}
+
 func outcomeOf(d ociregistry.Descriptor, err error) Outcome {
 	if err != nil {
 		return Outcome{OK: false, Code: errCodeOf(err), Err: err.Error()}
@@ -135,10 +157,16 @@ func (s *regSys) exec(op Op) (out Outcome) {
 		case "size":
 			d.Size++
 		}
-		return outcomeOf(s.reg.PushBlob(ctx, op.Repo, d, bytes.NewReader(append([]byte(nil), data...))))
+		buf := append([]byte(nil), data...)
+		out := outcomeOf(s.reg.PushBlob(ctx, op.Repo, d, bytes.NewReader(buf)))
+		scribble(buf) // the caller may reuse its buffer once the call has returned
+		return out
 	case "PushManifest":
 		um := u.Manifests[op.M]
-		return outcomeOf(s.reg.PushManifest(ctx, op.Repo, op.Tag, append([]byte(nil), um.Data...), um.MediaType))
+		buf := append([]byte(nil), um.Data...)
+		out := outcomeOf(s.reg.PushManifest(ctx, op.Repo, op.Tag, buf, um.MediaType))
+		scribble(buf)
+		return out
 	case "Mount":
 		out := outcomeOf(s.reg.MountBlob(ctx, op.From, op.Repo, sha256Digest(u.Blobs[op.B])))
 		return out
@@ -149,7 +177,13 @@ func (s *regSys) exec(op Op) (out Outcome) {
 	case "DeleteTag":
 		return outcomeOf(ociregistry.Descriptor{}, s.reg.DeleteTag(ctx, op.Repo, op.Tag))
 	case "Start":
-		w, err := s.reg.PushBlobChunked(ctx, op.Repo, s.hint)
+		var w ociregistry.BlobWriter
+		var err error
+		if op.Off == "id" {
+			w, err = s.reg.PushBlobChunkedResume(ctx, op.Repo, op.Piece, 0, s.hint)
+		} else {
+			w, err = s.reg.PushBlobChunked(ctx, op.Repo, s.hint)
+		}
 		if err != nil {
 			s.handles = append(s.handles, nil)
 			return outcomeOf(ociregistry.Descriptor{}, err)
@@ -184,7 +218,9 @@ func (s *regSys) exec(op Op) (out Outcome) {
 		return Outcome{OK: true}
 	case "Write":
 		h := s.handles[op.H]
-		n, err := h.Write([]byte(op.Piece))
+		piece := []byte(op.Piece)
+		n, err := h.Write(piece)
+		scribble(piece)
 		if err != nil {
 			return outcomeOf(ociregistry.Descriptor{}, err)
 		}
@@ -314,7 +350,7 @@ func (s *regSys) Key() string {
 
 func c02Alphabet(u *universe, tier string, chunked bool) alphabetConfig {
 	c := alphabetConfig{Repos: u.Repos, BadRepo: true, Chunked: chunked, MaxUploads: 1, MaxUpload: 3,
-		Manifests: []int{0, 1, 2, 3, 4, 5, 6, 7, 8}, Blobs: []int{0, 1, 2}, Deletes: true, Mounts: true, BadPushes: true, UntaggedToo: true, FinishedOps: true}
+		Manifests: []int{0, 1, 2, 3, 4, 5, 6, 7, 8, 9, 10}, Blobs: []int{0, 1, 2}, Deletes: true, Mounts: true, BadPushes: true, UntaggedToo: true, FinishedOps: true, ExplicitIDs: true}
 	return c
 }
 
@@ -344,6 +380,8 @@ func c02Seeds() [][]Op {
 		// a committed chunked upload (its ID may be reused) next to other content
 		{{K: "PushBlob", Repo: "r", B: 1}, {K: "Start", Repo: "r"}, {K: "Write", H: 0, Piece: "bc"}, {K: "Commit", H: 0}},
 		{{K: "Start", Repo: "r"}, {K: "Write", H: 0, Piece: "a"}, {K: "Commit", H: 0}, {K: "Cancel", H: 0}},
+		// an upload under a caller-chosen ID in one repository (the same ID may then be used in the other)
+		{{K: "Start", Repo: "r", Off: "id", Piece: "xid"}, {K: "Write", H: 0, Piece: "a"}},
 		// same bytes under two media types
 		{{K: "PushBlob", Repo: "r", B: 1}, {K: "PushBlob", Repo: "r", B: 2}, {K: "PushManifest", Repo: "r", M: 1, Tag: "t"}, {K: "PushManifest", Repo: "r", M: 8}},
 	}
